@@ -8,7 +8,7 @@ PROPS = {
     "C03": {
         "files": ["a2lfile/src/tokenizer.rs", "a2lfile/src/parser.rs", "a2lfile/src/a2ml.rs", "a2lfile/src/ifdata.rs", "a2lfile/src/loader.rs"],
         "trusted": T_STD,
-        "assumptions": ["texts over the stated alphabets / prefix families only; the generated element parsers are outside the claim"],
+        "assumptions": ["texts over the stated alphabets / prefix families only; the generated element parsers are outside the claim", "file access (loader::load, make_include_filename) is an environment stub in E2: every include file is unreadable"],
         "jobs": [
             {"engine": "E2", "module": "tokenizer", "harness": "h_find_string_end_6", "functions": ["tokenizer::find_string_end"],
              "bound": "all byte strings of length 6 (full byte range), any start <= 6", "timeout": 200},
@@ -36,6 +36,40 @@ PROPS = {
                 ("h_tok_keyword_tail_3", "'/' + every 3-char tail over 'begind /*'", True),
                 ("h_tok_core_raw_2", "all valid UTF-8 texts of 2 bytes (full byte range)", True),
                 ("h_tok_core_raw_3", "all valid UTF-8 texts of 3 bytes (full byte range)", False),
+                ("h_tok_invalid_tail_3", "'$12345678' + all valid UTF-8 tails of 3 bytes (error text cut at +10 bytes)", True),
+                ("h_tok_invalid_slash_tail_3", "' /x2345678' + all valid UTF-8 tails of 3 bytes", True),
+            ]
+        ] + [
+            {"engine": "E2", "module": "a2ml", "harness": h, "functions": ["a2ml::tokenize_a2ml", "a2ml::tokenize_tag", "a2ml::tokenize_include", "a2ml::tokenize_number", "a2ml::tokenize_keyword_ident", "a2ml::make_errtxt"],
+             "bound": b, "timeout": 300, "quick": q}
+            for h, b, q in [
+                ("h_aml_tok_1", "all A2ML texts of length 1 over ' \\n/*\";{[(=0xa_'", True),
+                ("h_aml_tok_2", "all A2ML texts of length 2 over the same alphabet", True),
+                ("h_aml_tok_3", "all A2ML texts of length 3 over the same alphabet", True),
+                ("h_aml_tok_4", "all A2ML texts of length 4 over the same alphabet", True),
+                ("h_aml_tok_5", "all A2ML texts of length 5 over the same alphabet", False),
+                ("h_aml_include_tail_0", "the A2ML text '/include'", True),
+                ("h_aml_include_tail_1", "'/include' + 1-char tails over ' \\n\"a/.;' (file access stubbed: unreadable)", True),
+                ("h_aml_include_tail_2", "'/include' + 2-char tails", True),
+                ("h_aml_include_tail_3", "'/include' + 3-char tails", True),
+                ("h_aml_include_tail_4", "'x /include ' + 4-char tails over ' \\n\"a/.'", False),
+                ("h_aml_tag_tail_3", "'\"' + 3-char tails over ' \"a\\n;'", True),
+                ("h_aml_comment_tail_3", "'/*' + 3-char tails over ' */a\\n'", True),
+                ("h_aml_number_tail_3", "'0' + 3-char tails over 'x09afg_ ;'", True),
+                ("h_aml_number_big", "'214748364' + 2-char tails (i32 boundary)", True),
+                ("h_aml_tok_raw_2", "all valid UTF-8 A2ML texts of 2 bytes (full byte range)", True),
+            ]
+        ] + [
+            {"engine": "E2", "module": "a2ml", "harness": h, "functions": ["a2ml::parse_a2ml", "a2ml::parse_aml_type*", "a2ml::parse_aml_member", "a2ml::parse_aml_tagged_def", "a2ml::parse_aml_taggedmember", "a2ml::require_*"],
+             "bound": b, "timeout": 400, "quick": q}
+            for h, b, q in [
+                ("h_aml_parse_2", "every sequence of 2 lexemes from a 20-lexeme A2ML vocabulary", True),
+                ("h_aml_parse_3", "every sequence of 3 lexemes from the vocabulary", False),
+                ("h_aml_parse_block_3", "'block \"IF_DATA\"' + every 3-lexeme sequence", False),
+                ("h_aml_parse_struct_3", "'block \"IF_DATA\" struct {' + every 3-lexeme sequence", False),
+                ("h_aml_parse_tagged_3", "'block \"IF_DATA\" taggedstruct {' + every 3-lexeme sequence", False),
+                ("h_aml_parse_enum_3", "'enum x {' + every 3-lexeme sequence", False),
+                ("h_aml_parse_array_3", "'block \"IF_DATA\" struct { int [' + every 3-lexeme sequence", False),
             ]
         ],
     },
